@@ -71,6 +71,28 @@ class Env:
     def child(self):
         return Env(self)
 
+    def kill(self, k, seq):
+        """the fact recorded under k stops holding at seq, in every scope that records it (so it does not reappear when an inner scope ends)"""
+        e = self
+        hit = False
+        while e is not None:
+            if k in e.vars:
+                e.vars[k].append((seq, ("dead",)))
+                hit = True
+            e = e.parent
+        if not hit:
+            self.vars.setdefault(k, []).append((seq, ("dead",)))
+
+
+def intersect(r, ref):
+    """r: (lo, hi) or None; ref: ("ref"|"inv", lo|None, hi|None)"""
+    lo, hi = ref[1], ref[2]
+    if r is None:
+        return (lo, hi) if lo is not None and hi is not None else None
+    a = r[0] if lo is None else max(r[0], lo)
+    b = r[1] if hi is None else min(r[1], hi)
+    return (a, b) if a <= b else r
+
 
 class Ranger:
     def __init__(self, mutated, consts=None, param_range=None):
@@ -78,6 +100,9 @@ class Ranger:
         self.consts = consts or (lambda p: None)
         self.param_range = param_range or (lambda name: None)
         self.depth = 0
+        self._refmemo = {}
+        self._keep = []
+        self.grown = set()  # names of collections that grow after their initialisation (set by the Walker's owner)
 
     def rng(self, n, env, at=None):
         self.depth += 1
@@ -87,6 +112,111 @@ class Ranger:
             return self._rng(n, env, at)
         finally:
             self.depth -= 1
+
+    GROWING = ("push", "insert", "extend", "extend_from_slice", "append", "resize", "resize_with", "push_str", "push_back", "push_front")
+    SHRINKING_ADAPTORS = ("map", "filter", "filter_map", "enumerate", "take_while", "skip", "skip_while", "inspect", "rev", "copied", "cloned", "peekable", "fuse", "by_ref", "map_while", "step_by")
+
+    def len_bound(self, n, env, at):
+        """an upper bound of the number of elements of a collection / iterator expression, or None"""
+        self.depth += 1
+        try:
+            if self.depth > 40:
+                return None
+            n = H.strip_refs(n)
+            t = H.tag(n)
+            if t in ("try", "await"):
+                return self.len_bound(n[1], env, at)
+            if t == "local":
+                if n[1] in self.grown:
+                    return None
+                b = env.get(n[1], at)
+                if b is not None and b[0] == "expr":
+                    m = re.search(r"; (\d+)\]$", (b[3] or "").replace("&mut ", "").replace("&", ""))
+                    if m:
+                        return int(m.group(1))
+                    return self.len_bound(b[1], b[2], b[4])
+                return None
+            if t == "struct" and n[1].endswith("::Range"):
+                f = dict((a, b) for a, b in n[2])
+                lo, hi = self.rng(f.get("start"), env, at), self.rng(f.get("end"), env, at)
+                return max(hi[1] - lo[0], 0) if lo and hi else None
+            if t == "call":
+                p = H.call_path(n) or ""
+                args = H.call_args(n)
+                if p.endswith("::from_elem") and len(args) == 2:
+                    r = self.rng(args[1], env, at)
+                    return r[1] if r else None
+                if p.endswith("RangeInclusive::<Idx>::new") and len(args) == 2:
+                    lo, hi = self.rng(args[0], env, at), self.rng(args[1], env, at)
+                    return max(hi[1] - lo[0] + 1, 0) if lo and hi else None
+                return None
+            if t == "mcall":
+                mc = H.mcall(n)
+                nm = mc["name"]
+                m = re.search(r"; (\d+)\]$", (mc.get("recv_ty_unadj") or "").replace("&mut ", "").replace("&", ""))
+                if nm in ("iter", "iter_mut", "into_iter", "as_slice", "as_mut_slice", "clone", "to_vec", "unwrap") or nm in self.SHRINKING_ADAPTORS:
+                    if m and nm in ("iter", "iter_mut", "into_iter", "as_slice"):
+                        return int(m.group(1))
+                    return self.len_bound(mc["recv"], env, at)
+                if nm == "collect":
+                    return self.len_bound(mc["recv"], env, at)
+                if nm == "take" and len(mc["args"]) == 1:
+                    a = self.len_bound(mc["recv"], env, at)
+                    k = self.rng(mc["args"][0], env, at)
+                    c = [x for x in (a, k[1] if k else None) if x is not None]
+                    return min(c) if c else None
+                if nm == "zip" and len(mc["args"]) == 1:
+                    c = [x for x in (self.len_bound(mc["recv"], env, at), self.len_bound(mc["args"][0], env, at)) if x is not None]
+                    return min(c) if c else None
+                if nm in ("chunks", "windows", "chunks_exact"):
+                    return self.len_bound(mc["recv"], env, at)
+                return None
+            return None
+        finally:
+            self.depth -= 1
+
+    def resolve_ref(self, ref):
+        """-> ("ref"|"inv", lo, hi) or None for a recorded fact, evaluating a condition recorded by Walker.refine on first use"""
+        if ref is None or ref[0] == "dead":
+            return None
+        if ref[0] in ("ref", "inv"):
+            return ref
+        key = id(ref)
+        if key in self._refmemo:
+            return self._refmemo[key]
+        self._refmemo[key] = None  # a cycle through the same fact contributes nothing
+        _k, op, lhs, rhs, env, seq, prev = ref
+        lo = hi = None
+        r = self.rng(rhs, env, seq)
+        if r is not None:
+            if op == "Lt":
+                hi = r[1] - 1
+            elif op == "Le":
+                hi = r[1]
+            elif op == "Gt":
+                lo = r[0] + 1
+            elif op == "Ge":
+                lo = r[0]
+            elif op == "Eq":
+                lo, hi = r
+            elif op == "Ne" and r[0] == r[1]:
+                cur = self.rng(lhs, env, seq)
+                if cur is not None and cur[0] == r[0]:
+                    lo = r[0] + 1
+                elif cur is not None and cur[1] == r[0]:
+                    hi = r[0] - 1
+        kind = "ref"
+        p = self.resolve_ref(prev)
+        if p is not None:
+            if p[1] is not None:
+                lo = p[1] if lo is None else max(lo, p[1])
+            if p[2] is not None:
+                hi = p[2] if hi is None else min(hi, p[2])
+            kind = p[0]
+        out = (kind, lo, hi) if (lo is not None or hi is not None) and not (lo is not None and hi is not None and lo > hi) else p
+        self._refmemo[key] = out
+        self._keep.append(ref)
+        return out
 
     def binding_range(self, name, b):
         if b[0] == "range":
@@ -120,7 +250,11 @@ class Ranger:
             return None
         if t == "local":
             b = env.get(n[1], at)
-            return self.binding_range(n[1], b) if b is not None else None
+            r = self.binding_range(n[1], b) if b is not None else None
+            ref = self.resolve_ref(env.get("#ref:" + n[1], at))
+            if ref is not None:
+                r = intersect(r, ref)
+            return r
         if t == "path":
             c = self.consts(n[1])
             return (c, c) if c is not None else None
@@ -172,7 +306,8 @@ class Ranger:
                 m = re.search(r"; (\d+)\]$", (mc.get("recv_ty_unadj") or "").replace("&mut ", "").replace("&", ""))
                 if m:
                     return (int(m.group(1)), int(m.group(1)))
-                return (0, LEN_MAX)
+                lb = self.len_bound(mc["recv"], env, at)
+                return (0, lb if lb is not None else LEN_MAX)
             if nm in ("size", "size_uncompressed") and not mc["args"]:
                 return (0, SIZE_MAX)
             if nm in ("into", "try_into", "unwrap", "clone") and not mc["args"]:
@@ -185,8 +320,10 @@ class Ranger:
                 if a and b:
                     return (max(0, a[0] - b[1]), max(0, a[1] - b[0]))
                 return a
-            if nm in ("count_ones", "leading_zeros", "trailing_zeros"):
-                return (0, 128)
+            if nm in ("count_ones", "leading_zeros", "trailing_zeros", "count_zeros", "leading_ones", "trailing_ones"):
+                mt = re.search(r"<impl (\w+)>", mc["path"] or "")
+                bits = INT_TYPES.get(mt.group(1), (128,))[0] if mt else 128
+                return (0, bits)
             if nm == "min" and len(mc["args"]) == 1:
                 a, b = self.rng(mc["recv"], env, at), self.rng(mc["args"][0], env, at)
                 if a and b:
@@ -263,6 +400,56 @@ def mutated_names(hir):
     return out
 
 
+def grown_names(hir):
+    """collections whose length may change after initialisation: receivers of growing methods, targets of assignments, and
+    anything handed out by `&mut`"""
+    out = set()
+    for n in H.walk(hir):
+        t = H.tag(n)
+        if t == "mcall" and n[2] in Ranger.GROWING + ("clear", "truncate", "pop", "remove", "drain", "retain", "dedup", "swap_remove", "split_off"):
+            nm = H.local_name(H.strip_refs(H.mcall(n)["recv"]))
+            if nm:
+                out.add(nm)
+        if t == "refmut":
+            nm = H.local_name(H.strip(n[1]))
+            if nm:
+                out.add(nm)
+        if t in ("asg", "asgop"):
+            nm = H.local_name(H.strip(n[1] if t == "asg" else n[4]))
+            if nm:
+                out.add(nm)
+    return out
+
+
+NEG = {"Lt": "Ge", "Le": "Gt", "Gt": "Le", "Ge": "Lt", "Eq": "Ne", "Ne": "Eq"}
+FLIP = {"Lt": "Gt", "Le": "Ge", "Gt": "Lt", "Ge": "Le", "Eq": "Eq", "Ne": "Ne"}
+
+
+def diverges(n):
+    """the expression never completes normally (return / break / continue / panic as its last action)"""
+    n0 = n
+    mac = None
+    while H.tag(n) == "mac":
+        mac = n[1]
+        n = n[2]
+    if mac in ("panic", "unreachable", "unimplemented", "todo"):
+        return True
+    t = H.tag(n)
+    if t in ("ret", "break", "continue"):
+        return True
+    if t == "block":
+        if n[2] is not None:
+            return diverges(n[2])
+        if n[1]:
+            last = n[1][-1]
+            if last[0] in ("semi", "expr"):
+                return diverges(last[1])
+        return False
+    if t == "if":
+        return n[3] is not None and diverges(n[2]) and diverges(n[3])
+    return False
+
+
 def tail_tuple(ranger, blk, env, at):
     """component ranges of the tuple a block evaluates to (let-bindings inside the block are honoured)"""
     b = blk
@@ -294,6 +481,7 @@ class Walker:
         self.r = ranger
         self.on_node = on_node
         self.seq = 0
+        self.last_assign = {}
 
     def bind_let(self, st, env):
         self.seq += 1
@@ -317,6 +505,143 @@ class Walker:
             for q in H.walk(pat):
                 if H.tag(q) == "bind":
                     env.set(q[1], ("type", q[4]), self.seq)
+
+    def local_of(self, e):
+        """the local an expression is a value-preserving view of (references, dereferences, widening casts), or None"""
+        while True:
+            e = H.strip(e)
+            t = H.tag(e)
+            if t in ("ref", "refmut"):
+                e = e[1]
+            elif t == "un" and e[2] == "Deref":
+                e = e[4]
+            elif t == "cast":
+                a, b = ty_range(e[2]), ty_range(e[3])
+                if a is None or b is None or not (b[0] <= a[0] and a[1] <= b[1]):
+                    return None
+                e = e[4]
+            elif t == "local":
+                return e[1]
+            else:
+                return None
+
+    def set_ref(self, env, name, lo, hi, kind="ref"):
+        old = self.r.resolve_ref(env.get("#ref:" + name, self.seq))
+        if old is not None and old[0] in ("ref", "inv"):
+            if old[1] is not None:
+                lo = old[1] if lo is None else max(lo, old[1])
+            if old[2] is not None:
+                hi = old[2] if hi is None else min(hi, old[2])
+            if old[0] == "inv":
+                kind = "inv"
+        if lo is not None and hi is not None and lo > hi:
+            return
+        self.seq += 1
+        env.set("#ref:" + name, (kind, lo, hi), self.seq)
+
+    def refine(self, c, env, pos):
+        """record what the condition c (taken as true when pos, false otherwise) says about the locals it compares"""
+        c = H.strip(c)
+        t = H.tag(c)
+        if t == "un" and c[2] == "Not":
+            return self.refine(c[4], env, not pos)
+        if t == "bin" and c[2] in ("And", "Or"):
+            if (c[2] == "And") == pos:
+                self.refine(c[4], env, pos)
+                self.refine(c[5], env, pos)
+            return
+        if t == "mcall" and c[2] == "is_empty" and not H.mcall(c)["args"] and pos is False:
+            return  # a non-empty collection: no integer local to refine
+        if t != "bin" or c[2] not in NEG:
+            return
+        op0 = c[2] if pos else NEG[c[2]]
+        for lhs, rhs, op in ((c[4], c[5], op0), (c[5], c[4], FLIP[op0])):
+            name = self.local_of(lhs)
+            if name is None:
+                continue
+            # recorded unevaluated: the ranges are computed only if a site asks about this local (Ranger.resolve_ref)
+            prev = env.get("#ref:" + name, self.seq)
+            self.seq += 1
+            env.set("#ref:" + name, ("lazy", op, lhs, rhs, env, self.seq - 1, prev), self.seq)
+
+    def assigned(self, n, env):
+        """transfer of an assignment on the recorded facts about its target"""
+        t = H.tag(n)
+        tgt = H.local_name(H.strip(n[1] if t == "asg" else n[4]))
+        if not tgt:
+            return
+        cur = self.r.resolve_ref(env.get("#ref:" + tgt, self.seq))
+        if cur is not None and cur[0] == "inv":
+            return  # a loop invariant already accounts for every update inside the loop
+        new = None
+        if t == "asg":
+            r = self.r.rng(n[2], env, self.seq)
+            if r is not None:
+                new = ("ref", r[0], r[1])
+        elif cur is not None and cur[0] == "ref" and n[2] in ("AddAssign", "SubAssign"):
+            d = self.r.rng(n[5], env, self.seq)
+            if d is not None:
+                if n[2] == "AddAssign":
+                    new = ("ref", None if cur[1] is None else cur[1] + d[0], None if cur[2] is None else cur[2] + d[1])
+                else:
+                    new = ("ref", None if cur[1] is None else cur[1] - d[1], None if cur[2] is None else cur[2] - d[0])
+        self.seq += 1
+        self.last_assign[tgt] = self.seq
+        if new is not None:
+            env.kill("#ref:" + tgt, self.seq)
+            self.seq += 1
+            env.set("#ref:" + tgt, new, self.seq)
+        else:
+            env.kill("#ref:" + tgt, self.seq)
+
+    def loop_entry(self, n, env):
+        """facts about locals that the loop body changes stop holding where the loop starts"""
+        self.seq += 1
+        for nm in mutated_names(n) | {H.local_name(H.strip(x[1])) for x in H.walk(n) if H.tag(x) == "refmut" and H.local_name(H.strip(x[1]))}:
+            env.kill("#ref:" + nm, self.seq)
+
+    def updates_of(self, body, name):
+        """-> list of constant ranges e of the updates `name += e` when these are the only changes of `name` in body, else None"""
+        out = []
+        for x in H.walk(body):
+            t = H.tag(x)
+            if t == "asg" and H.local_name(H.strip(x[1])) == name:
+                return None
+            if t == "refmut" and H.local_name(H.strip(x[1])) == name:
+                return None
+            if t == "asgop" and H.local_name(H.strip(x[4])) == name:
+                if x[2] != "AddAssign":
+                    return None
+                e = H.strip(x[5])
+                v = H.lit_int(e)
+                if v is None and H.tag(e) == "path":
+                    v = self.r.consts(e[1])
+                if v is None or v < 0:
+                    return None
+                out.append(v)
+        return out
+
+    def init_range(self, name, env):
+        """range of a local where a loop starts (its initialiser or a recorded fact), ignoring later mutation"""
+        ref = self.r.resolve_ref(env.get("#ref:" + name, self.seq))
+        b = env.get(name, self.seq)
+        r = None
+        if name in self.last_assign:
+            # changed since its `let`: only a fact recorded at (or after) the last change still describes it
+            if ref is None or ref[0] not in ("ref", "inv"):
+                return None
+            tr = ty_range(b[3]) if b is not None and b[0] == "expr" and b[3] else (ty_range(b[1]) if b is not None and b[0] in ("type", "param") else None)
+            return intersect(tr, ref)
+        if b is not None and b[0] == "expr":
+            r = self.r.rng(b[1], b[2], b[4])
+            tr = ty_range(b[3]) if b[3] else None
+            if r is None:
+                r = tr
+        elif b is not None and b[0] == "range":
+            r = (b[1], b[2])
+        if ref is not None and ref[0] in ("ref", "inv"):
+            r = intersect(r, ref)
+        return r
 
     def note_guard(self, stmt_expr, env):
         """`if X > C { return Err(..) }` establishes an allocation guard on X and on the locals X was computed from"""
@@ -359,6 +684,13 @@ class Walker:
                 elif s[0] in ("semi", "expr"):
                     self.walk(s[1], e2, loops)
                     self.note_guard(s[1], e2)
+                    g = H.strip(s[1])
+                    if H.tag(g) == "if" and H.tag(H.strip(g[1])) != "letexpr":
+                        # `if c { return .. }` (or break / continue / panic): the rest of the block runs under !c; with a diverging else, under c
+                        if diverges(g[2]) and (g[3] is None or not diverges(g[3])):
+                            self.refine(g[1], e2, False)
+                        elif g[3] is not None and diverges(g[3]) and not diverges(g[2]):
+                            self.refine(g[1], e2, True)
             if n[2] is not None:
                 self.walk(n[2], e2, loops)
             return
@@ -381,6 +713,20 @@ class Walker:
                     m = re.search(r"; (\d+)\]$", (H.mcall(inner).get("recv_ty_unadj") or "").replace("&mut ", "").replace("&", ""))
                     if m:
                         enum_bound = (0, int(m.group(1)) - 1)
+            iters = self.r.len_bound(it, env, self.seq)
+            inits = {}
+            for nm in sorted(mutated_names(body)):
+                ups = self.updates_of(body, nm)
+                ir = self.init_range(nm, env) if ups else None
+                if iters is not None and ups and ir is not None:
+                    inits[nm] = (ir[0], ir[1] + iters * sum(ups))
+            self.loop_entry(n, env)
+            for nm, (lo_, hi_) in inits.items():
+                # x changes only by `x += c` (c >= 0 constant) and the loop runs at most `iters` times: x stays within init + iters * c,
+                # inside the loop and after it
+                self.seq += 1
+                env.set("#ref:" + nm, ("ref", lo_, hi_), self.seq)
+                e2.set("#ref:" + nm, ("inv", lo_, hi_), self.seq)
             p = pat
             if H.tag(p) == "ps" and p[2]:
                 p = p[2][0][1]
@@ -402,9 +748,33 @@ class Walker:
             self.walk(body, e2, loops + (n,))
             return
         if t in ("while", "loop"):
+            counters = {}
+            if t == "while":
+                # counter induction: `while x != K` / `while x < K` where the body changes x only by `x += c`
+                c = H.strip(n[1])
+                if H.tag(c) == "bin" and c[2] in ("Ne", "Lt", "Le"):
+                    nm = self.local_of(c[4])
+                    kr = self.r.rng(c[5], env, self.seq)
+                    ups = self.updates_of(n[2], nm) if nm else None
+                    ir = self.init_range(nm, env) if ups else None
+                    if ups and ir is not None and kr is not None and kr[0] == kr[1] and len(ups) == 1 and ups[0] >= 1:
+                        K = kr[0] + (1 if c[2] == "Le" else 0)
+                        if ir[1] <= K and (c[2] != "Ne" or ups[0] == 1):
+                            counters[nm] = (ir[0], K - 1, K - 1 + ups[0])
+            self.loop_entry(n, env)
+            e2 = env.child()
             if t == "while":
                 self.walk(n[1], env, loops + (n,))
-            self.walk(n[2], env, loops + (n,))
+                self.refine(n[1], e2, True)
+            for nm, (lo_, hi_in, hi_after) in counters.items():
+                self.seq += 1
+                e2.set("#ref:" + nm, ("ref", lo_, hi_in), self.seq)
+            self.walk(n[2], e2, loops + (n,))
+            for nm, (lo_, hi_in, hi_after) in counters.items():
+                self.seq += 1
+                env.kill("#ref:" + nm, self.seq)
+                self.seq += 1
+                env.set("#ref:" + nm, ("ref", lo_, hi_after), self.seq)
             return
         if t == "closure":
             e2 = env.child()
@@ -416,12 +786,25 @@ class Walker:
             return
         if t == "match":
             self.walk(n[1], env, loops)
+            sr = self.r.rng(n[1], env, self.seq)
+            seen_lits = []
             for pat, guard, body in n[3]:
                 e2 = env.child()
                 self.seq += 1
                 for q in H.walk(pat):
                     if H.tag(q) == "bind":
                         e2.set(q[1], ("type", q[4]), self.seq)
+                if H.tag(pat) == "lit" and pat[1] == "int" and guard is None:
+                    seen_lits.append(int(pat[2]))
+                elif H.tag(pat) == "bind" and pat[5] is None and sr is not None:
+                    # `v => ..` after literal arms: the scrutinee's range without the literals already matched at its ends
+                    lo_, hi_ = sr
+                    while lo_ in seen_lits:
+                        lo_ += 1
+                    while hi_ in seen_lits:
+                        hi_ -= 1
+                    if lo_ <= hi_:
+                        e2.set(pat[1], ("range", lo_, hi_), self.seq)
                 if guard is not None:
                     self.walk(guard, e2, loops)
                 self.walk(body, e2, loops)
@@ -437,9 +820,13 @@ class Walker:
                         e2.set(q[1], ("type", q[4]), self.seq)
             else:
                 self.walk(n[1], env, loops)
+                self.refine(c, e2, True)
             self.walk(n[2], e2, loops)
             if n[3] is not None:
-                self.walk(n[3], env, loops)
+                e3 = env.child()
+                if H.tag(c) != "letexpr":
+                    self.refine(c, e3, False)
+                self.walk(n[3], e3, loops)
             return
         if t == "struct":
             for f in n[2]:
@@ -452,3 +839,11 @@ class Walker:
         for c in n[1:]:
             if isinstance(c, list):
                 self.walk(c, env, loops)
+        if t in ("asg", "asgop"):
+            self.assigned(n, env)
+        elif t == "refmut":
+            nm = H.local_name(H.strip(n[1]))
+            if nm:
+                self.seq += 1
+                self.last_assign[nm] = self.seq
+                env.kill("#ref:" + nm, self.seq)
